@@ -36,6 +36,9 @@ def run(eng, rep) -> None:
     from .lints import population_through_dict
     population_through_dict(eng, rep, "R10.5", ("fcp.verifier",), "nodes that share a name with a later one (an impl named like another protocol's impl) are never verified, so what the checks would reject reaches the generators")
     rep.rule("R10.4", "groups made by itertools.groupby over an unsorted registry are not stored by key with overwrite")
+    rep.rule("R10.6", "the writer touches only the paths the generators returned: a scratch file is not named by replacing the target's extension")
+    from .lints import scratch_by_suffix
+    scratch_by_suffix(eng, rep, "R10.6", ("fcp.codegen",))
     from .lints import groupby_overwrite
     groupby_overwrite(eng, rep, "R10.4", ("fcp.verifier", "fcp.codegen"), "checks registered earlier under that category are never run, so a schema they would reject reaches the generators")
     rep.assume("filesystem-mutating primitives are those in the frozen table sa/rules/common.py:FS_*; writes through C extensions or subprocesses named otherwise are not seen")
